@@ -12,10 +12,11 @@ C2S: vectors (mask, payload at alignment a, result of both functions) for length
      alignments, structured and seeded-random masks, wrong-length masks, are validated by TLC
      against MaskRef (Trace_MaskRef).
 
-Binding demonstrated during development (scratch worktree): `data_len >= 4` -> `data_len > 4`
-with the tail loop bound left alone is harmless (still correct, accepted); `mask[i]` ->
-`mask[3 - i]` in the tail loop, the 64-bit mask built without the `<< 32` half, `mask_len != 4`
--> `mask_len < 4`, and `i % 4` -> `i % 3` in util.py are each reported by S2C and C2S.
+Binding demonstrated during development (scratch worktree, VERIF_REPO=...): `mask[i]` ->
+`mask[3 - i]` in the tail loop of speedups.c (S2C + C2S), `mask_len != 4` -> `mask_len < 4` (S2C:
+8-byte mask accepted), the 64-bit mask built with `<< 24` instead of `<< 32` (S2C + C2S), and a
+python fallback that is only wrong from byte 64 on (`i % 4` -> `i & 3 if i < 64 else i % 5 % 4`;
+beyond the S2C lengths - reported by C2S only) were each reported as VIOLATION.
 """
 import random
 import time
